@@ -55,6 +55,7 @@ def variations(P):
     V["nw_crops_die"] = dict(nw, crop_disruption="all_crops_die_instantly", grasses="all_crops_die_instantly")
     V["res_shutoff_continued"] = dict(P["net_nuclear_resilient"], shutoff="continued")
     V["res_intake_disabled"] = dict(P["net_nuclear_resilient"], intake_constraints="disabled_for_humans")
+    V["nw_zero_demand"] = dict(nw, feed_kcals=0, biofuel_kcals=0)
     V["nw_T50"] = dict(nw, MINIMUM_PERCENT_FED_BEFORE_NONHUMAN_CONSUMPTION_ALLOWED=50)
     V["nw_large_animal_350kg"] = dict(nw, kg_meat_per_large_animal=350)
     V["base_72m"] = dict(P["net_baseline"], NMONTHS=72)
@@ -81,8 +82,9 @@ def to_global(s):
 
 
 # (SGP: the only country without crop land; MUS: an island state where the feed round can yield less meat than no feed;
-#  URY: a meat exporter where the final feed top-up meets a binding, non-zero feed demand)
-QUICK_CC = ["ARG", "USA", "IND", "CHN", "NZL", "DJI", "LSO", "EST", "SLV", "ECU", "JPN", "ZAF", "SGP", "MUS", "URY", "WOR"]
+#  URY: a meat exporter where the final feed top-up meets a binding, non-zero feed demand; MNG: herds that live on grass, the
+#  feed round's meat is re-timed; BTN: no feed or biofuel demand at all)
+QUICK_CC = ["ARG", "USA", "IND", "CHN", "NZL", "DJI", "LSO", "EST", "SLV", "ECU", "JPN", "ZAF", "SGP", "MUS", "URY", "MNG", "BTN", "WOR"]
 QUICK_PRESETS = ["net_baseline", "net_nuclear_winter", "net_nuclear_resilient", "net_nuclear_resilient_more_area",
                  "ms_worst", "ms_simple_ration", "ms_example_res"]
 
@@ -131,6 +133,10 @@ def jobs(tier, seed=0):
     res.append(dict(cc="DJI", preset="res_intake_disabled", options=copy.deepcopy(V["res_intake_disabled"])))
     # ... and with feed and biofuel demand that never stops (the industrial foods then meet a feed charge)
     res.append(dict(cc="NZL", preset="res_shutoff_continued", options=copy.deepcopy(V["res_shutoff_continued"])))
+    # feed and biofuel demand overridden to nothing
+    res.append(dict(cc="ARG", preset="nw_zero_demand", options=copy.deepcopy(V["nw_zero_demand"])))
+    # a run whose title contains a dot (the saved tables are named after the title)
+    res.append(dict(cc="DJI", preset="nw_title_x0.5", options=copy.deepcopy(P["net_nuclear_winter"])))
     # custom herd sizes (a numeric override that every round's herd simulation must honour)
     res.append(dict(cc="ARG", preset="net_baseline_custom_herd", options=dict(copy.deepcopy(P["net_baseline"]), meat_cattle_head=5000000, pig_head=100000)))
     # an explicit threshold together with a shut-off schedule that carries its own default threshold
